@@ -5,6 +5,7 @@ From Golem Require Export Base.CheckLib.
 Import ListNotations.
 Open Scope Z_scope.
 
+(* family 3: values of interface type, nil = the empty list: same list semantics as family 2; a panic is observed as [-999] *)
 (* family 0: f_i x = 2x + i on Z;  family 1: f_i x = x - i if i odd, 3x if i even;  family 2: f_i l = l ++ [i] *)
 Definition fam01 (fam : N) (i : Z) (x : Z) : Z :=
   match fam with
@@ -20,7 +21,7 @@ Record case := mk { arity : N; fam : N; input : list Z; observed : list Z }.
 
 Definition required (c : case) : option (list Z) :=
   match fam c with
-  | 2%N => Some (spec_pipe (arity c) fam2 (input c))
+  | 2%N | 3%N => Some (spec_pipe (arity c) fam2 (input c))
   | f => match input c with [x] => Some [spec_pipe (arity c) (fam01 f) x] | _ => None end
   end.
 Definition agree (o : option (list Z)) (obs : list Z) : bool := match o with Some l => lz_eqb l obs | None => false end.
